@@ -22,7 +22,7 @@ import signapp
 
 
 import os
-KMAX = 300 if os.environ.get("VERIF_TIER") == "thorough" else 40
+KMAX = 100 if os.environ.get("VERIF_TIER") == "thorough" else 40
 
 
 def record(count_addr_type_data):
@@ -122,7 +122,7 @@ class MemFS:
 
 
 @obligation(tier="quick", parts=len(IMAGES), timeout=200, part_names=lambda i: IMAGES[i][0],
-            bounds="9 catalogue images (partition); a symbolic cut position 1..40 (T: 1..300) and a second one derived from it (k+1 | 2k+1 | 255) decide "
+            bounds="9 catalogue images (partition); a symbolic cut position 1..40 (T: 1..100) and a second one derived from it (k+1 | 2k+1 | 255) decide "
                    "where every area is cut into records; the same image is hashed with these cuts and with no cuts",
             examples=[(i, dict(k1=3, k2=1)) for i in range(len(IMAGES))])
 def app_hash(k1: int, k2: int) -> bool:
